@@ -124,6 +124,32 @@ class Scenario:
             rep = self.confirm_real(name, lhs_out, a, rhs, fs + ties, r2.model)
         return self._rec(name, 'real', 'sat', r.t, **rep)
 
+    def real_true(self, name, formula, with_path=True, extra=(), witness_out=None):
+        """obligation: z3 formula (over the encoder's variables) holds for every input satisfying the assumptions (and the path)."""
+        fs = self.base(with_path) + list(extra) + [z3.Not(formula)]
+        if self.post_subst:
+            zs = [(self.enc.var(k), R.Q(Fraction(v))) for k, v in self.post_subst.items()]
+            fs = [z3.substitute(f, *zs) for f in fs]
+        r = R.solve(name, fs, self.timeout)
+        self.queries += 1
+        self.solver_time += r.t
+        if r.status == 'unsat':
+            return self._rec(name, 'real', 'unsat', r.t, h=formula.hash(), trivial=(r.detail == 'trivial'))
+        if r.status == 'unknown':
+            return self._rec(name, 'real', 'unknown', r.t, detail=r.detail)
+        # replay: run the native build on the model (rounded to doubles) and report the observed outputs
+        pt = {k: float(v) for k, v in self.point_from_model(r.model).items()}
+        rec = {'model': {k: r.model[k] for k in list(r.model)[:20]}, 'point': pt, 'confirmed': False}
+        try:
+            nd = D.run(self.tu, self.script.text(self.decisions, pt), native=True)
+            rec['native_outs'] = {k: nd.outv[k] for k in list(nd.outv)[:12]}
+            rec['confirmed'] = True
+            rec['replay'] = self.write_replay(name, {'kind': 'formula', 'shadows': pt, 'decisions': self.decisions, 'note': 'inequality / condition violated: ' + formula.sexpr()[:300],
+                                                     'native_outs': {k: D.f2hex(v) for k, v in list(nd.outv.items())[:12]}})
+        except Exception as e:
+            rec['note'] = 'native run failed: %s' % e
+        return self._rec(name, 'real', 'sat', r.t, **rec)
+
     def path_forced(self, name='recorded path is the only feasible one on the domain'):
         """assumptions => path condition (so the single explored path covers the whole domain)."""
         pf = self.path_formulas()
